@@ -356,6 +356,13 @@ fn execute_convert(
 
     if changes.is_empty() || (changes.len() == 1 && changes[0].contains("No conversion needed")) {
         println!("{} No conversion needed", style("ℹ").blue());
+        if !preview {
+            // An output file was asked for: write the unchanged map, so that a
+            // successful exit always means the output exists.
+            let output_file = File::create(&output).context("Failed to create output file")?;
+            let mut writer = WdtWriter::new(BufWriter::new(output_file));
+            writer.write(&wdt).context("Failed to write output file")?;
+        }
         return Ok(());
     }
 
